@@ -1,6 +1,7 @@
 import Pyunicorn.Lemmas.Similarity
 import Pyunicorn.Lemmas.SimilarityIeee
 import Pyunicorn.Lemmas.SimilarityWeight
+import Pyunicorn.Lemmas.SimilarityHilbert
 import Pyunicorn.Generated.ArithC09
 /-!
 # C09 — similarity networks link exactly the pairs above the threshold
@@ -646,5 +647,161 @@ theorem gen_thrIndex (ρ : Rat) (len : Nat) (hρ1 : ρ ≤ 1) (hlen : 0 < len) :
       exact_mod_cast congrArg (fun z : Int => (z : Rat)) this
     rw [h2]
     grind
+
+
+/-! ## 7. `HilbertClimateNetwork`: phase mask and `set_directed` (round 3) -/
+
+/-- **link rule of the Hilbert network**: in the state with settings `(d, S, P, nl, θ)` node `i`
+links to `j` exactly when they are distinct, the (weighted) coherence exceeds the threshold and —
+for a directed network — the phase shift is positive -/
+theorem hilbert_link_iff (N : Nat) (d : Bool) (S P damp : Sim) (nl : Bool) (θ : Rat)
+    (i j : Nat) (hi : i < N) (hj : j < N) :
+    (hilbertState N d S P damp nl θ).net.A[i * N + j]? = some true ↔
+      i ≠ j ∧ θ < weighted nl S damp i j ∧ (d = true → 0 < P i j) := by
+  cases d
+  · simp only [hilbertState, hilbertAdjacency, Bool.false_eq_true, if_false]
+    rw [getElem?_thresholdAdjacency _ _ _ _ _ hi hj]
+    simp
+  · simp only [hilbertState, hilbertAdjacency, if_true]
+    rw [getElem?_phaseMask, getElem?_thresholdAdjacency _ _ _ _ _ hi hj,
+      flat_div N i j hj, flat_mod N i j hj]
+    simp [and_assoc]
+
+/-- the constructor yields that state: `_set_directed(d, True)`, `ClimateNetwork.__init__` with the
+overridden `set_threshold`, `GeoNetwork.__init__`, `_set_directed(d, False)` — the mask applied
+twice is the mask applied once -/
+theorem hilbert_constructor (N : Nat) (d : Bool) (S0 P damp : Sim) (nl : Bool) (θ : Rat) :
+    mkHilbert N d S0 P damp nl θ = hilbertState N d (absSim S0) P damp nl θ :=
+  mkHilbert_eq_state N d S0 P damp nl θ
+
+/-- **link rule at the constructed object** -/
+theorem hilbert_link_iff_object (N : Nat) (d : Bool) (S0 P damp : Sim) (nl : Bool) (θ : Rat)
+    (i j : Nat) (hi : i < N) (hj : j < N) :
+    (mkHilbert N d S0 P damp nl θ).net.A[i * N + j]? = some true ↔
+      i ≠ j ∧ θ < weighted nl (absSim S0) damp i j ∧ (d = true → 0 < P i j) := by
+  rw [hilbert_constructor]; exact hilbert_link_iff N d _ P damp nl θ i j hi hj
+
+/-- an antisymmetric phase (`arg` of a Hermitian matrix) never links a pair in both directions -/
+theorem hilbert_no_mutual_links (N : Nat) (S P damp : Sim) (nl : Bool) (θ : Rat)
+    (i j : Nat) (hi : i < N) (hj : j < N) (hP : P j i = -P i j) :
+    ¬ ((hilbertState N true S P damp nl θ).net.A[i * N + j]? = some true ∧
+       (hilbertState N true S P damp nl θ).net.A[j * N + i]? = some true) := by
+  rw [hilbert_link_iff N true S P damp nl θ i j hi hj, hilbert_link_iff N true S P damp nl θ j i hj hi]
+  rintro ⟨⟨_, _, h1⟩, ⟨_, _, h2⟩⟩
+  have a := h1 rfl
+  have b := h2 rfl
+  rw [hP] at b
+  grind
+
+/-- an undirected Hilbert network is a plain `ClimateNetwork`: the override changes nothing -/
+theorem hilbert_undirected_is_climate (h : HNet) (θ : Rat) (hd : h.net.directed = false) :
+    (h.setThreshold θ).net = h.net.setThreshold θ := by
+  simp [HNet.setThreshold, HNet.maskIf, Net.setThreshold, hd]
+
+/-- `set_directed(False)` is `_regenerate_network` of the plain model with the flag cleared -/
+theorem hilbert_setDirected_false (h : HNet) (S1 P1 : Sim) :
+    (h.setDirected false S1 P1).net = ({ h.net with directed := false } : Net).regenerate S1 := by
+  rw [setDirected_eq_state]
+  simp [hilbertState, hilbertAdjacency, Net.regenerate, Net.setThreshold]
+
+/-- the reachable states: everything the object reports is the closed-form function of its settings -/
+def HNet.Inv (h : HNet) (N : Nat) (damp : Sim) (d : Bool) (S P : Sim) : Prop :=
+  ∃ nl θ, h = hilbertState N d (absSim S) P damp nl θ
+
+/-- the settings `(directed, coherence, phase)` last stored by the constructor / `set_directed` -/
+def hLast (d0 : Bool) (S0 P0 : Sim) : List HOp → Bool × Sim × Sim
+  | [] => (d0, S0, P0)
+  | .dir d S1 P1 :: os => hLast d S1 P1 os
+  | _ :: os => hLast d0 S0 P0 os
+
+theorem hilbert_step_consistent (h h' : HNet) (N : Nat) (damp : Sim) (d : Bool) (S P : Sim)
+    (o : HOp) (hc : h.Inv N damp d S P) (hs : h.step o = some h') :
+    h'.Inv N damp (hLast d S P [o]).1 (hLast d S P [o]).2.1 (hLast d S P [o]).2.2 := by
+  obtain ⟨nl, θ, rfl⟩ := hc
+  cases o with
+  | thr θ' =>
+    simp only [HNet.step, Option.some.injEq] at hs
+    subst hs
+    exact ⟨nl, θ', setThreshold_eq_state _ θ'⟩
+  | dens k =>
+    simp only [HNet.step, HNet.setLinkDensity, Option.map_eq_some_iff] at hs
+    obtain ⟨θ', _, rfl⟩ := hs
+    exact ⟨nl, θ', setThreshold_eq_state _ θ'⟩
+  | nl b =>
+    simp only [HNet.step, Option.some.injEq] at hs
+    subst hs
+    exact ⟨b, θ, setNonLocal_eq_state _ b rfl⟩
+  | dir d' S1 P1 =>
+    simp only [HNet.step, Option.some.injEq] at hs
+    subst hs
+    exact ⟨nl, θ, setDirected_eq_state _ d' S1 P1⟩
+
+theorem hLast_cons (d : Bool) (S P : Sim) (o : HOp) (os : List HOp) :
+    hLast d S P (o :: os)
+      = hLast (hLast d S P [o]).1 (hLast d S P [o]).2.1 (hLast d S P [o]).2.2 os := by
+  cases o <;> simp [hLast]
+
+/-- **consistency after every history** of `set_threshold / set_link_density / set_non_local /
+set_directed` calls on a Hilbert network that does not raise -/
+theorem hilbert_consistent_after_history (ops : List HOp) (h h' : HNet) (N : Nat) (damp : Sim)
+    (d : Bool) (S P : Sim) (hc : h.Inv N damp d S P) (hr : h.run ops = some h') :
+    h'.Inv N damp (hLast d S P ops).1 (hLast d S P ops).2.1 (hLast d S P ops).2.2 := by
+  induction ops generalizing h d S P with
+  | nil =>
+    simp only [HNet.run, Option.some.injEq] at hr
+    subst hr
+    exact hc
+  | cons o os ih =>
+    simp only [HNet.run, Option.bind_eq_some_iff] at hr
+    obtain ⟨h1, e1, e2⟩ := hr
+    rw [hLast_cons]
+    exact ih h1 _ _ _ (hilbert_step_consistent h h1 N damp d S P o hc e1) e2
+
+/-- **fresh twin, Hilbert**: the object after any history (incl. `set_directed`) equals a fresh
+`HilbertClimateNetwork(data, threshold=threshold(), non_local=non_local(), directed=<last value>)` -/
+theorem hilbert_history_eq_fresh (N : Nat) (d : Bool) (S0 P0 damp : Sim) (nl : Bool) (θ : Rat)
+    (ops : List HOp) (h' : HNet) (hr : (mkHilbert N d S0 P0 damp nl θ).run ops = some h') :
+    h' = mkHilbert N (hLast d S0 P0 ops).1 (hLast d S0 P0 ops).2.1 (hLast d S0 P0 ops).2.2 damp
+          h'.net.nonLocal h'.net.θ ∧
+      h'.net.directed = (hLast d S0 P0 ops).1 := by
+  have hc : (mkHilbert N d S0 P0 damp nl θ).Inv N damp d S0 P0 := ⟨nl, θ, hilbert_constructor ..⟩
+  obtain ⟨nl', θ', rfl⟩ := hilbert_consistent_after_history ops _ h' N damp d S0 P0 hc hr
+  rw [hilbert_constructor]
+  exact ⟨rfl, rfl⟩
+
+/-- **the density request on a Hilbert network, as executed**: the phase mask only removes links,
+so the number of (ordered) linked pairs is at most `(ρ + 2⁻⁵² + 2⁻¹⁰⁶)·(N² − N)` -/
+theorem hilbert_density_le_request (h h' : HNet) (ρ : Rat)
+    (hS : ∀ i j, i < h.net.N → j < h.net.N → 0 ≤ h.net.S i j)
+    (hd : ∀ i j, i < h.net.N → j < h.net.N → h.net.damp i j ≤ 1)
+    (h0 : 0 ≤ ρ) (h1 : ρ ≤ 1)
+    (hs : h.setLinkDensity (ieeeIndex ρ (offDiag h.net.S h.net.N).length) = some h') :
+    (nnz h'.net.A : Rat) ≤ (ρ + ieeeSlack) * ((offDiag h.net.S h.net.N).length : Rat) := by
+  simp only [HNet.setLinkDensity, Option.map_eq_some_iff] at hs
+  obtain ⟨θ, hθ, rfl⟩ := hs
+  have hb := (set_link_density_ieee h.net (h.net.setThreshold θ) ρ hS hd h0 h1
+    (by simp [Net.setLinkDensity, hθ])).1
+  have hle : nnz (h.setThreshold θ).net.A ≤ nnz (h.net.setThreshold θ).A := by
+    rw [setThreshold_eq_state]
+    simp only [hilbertState, hilbertAdjacency, Net.setThreshold]
+    split
+    · exact nnz_phaseMask_le _ _ _
+    · exact Nat.le_refl _
+  have : (nnz (h.setThreshold θ).net.A : Rat) ≤ (nnz (h.net.setThreshold θ).A : Rat) := by
+    exact_mod_cast hle
+  linarith
+
+/-- a directed network from an antisymmetric phase, `set_directed(False)` in the middle: both
+directions of the pair above the threshold are linked again, `n_links` counts it once -/
+example : ((mkHilbert 2 true (fun i j => if i = j then 1 else 3/4)
+      (fun i j => if i < j then 1/2 else if j < i then -1/2 else 0) (fun _ _ => 1) false (1/2)).run
+      [HOp.thr (1/4)]).map (fun h => (h.net.A, h.net.nLinks, h.net.density))
+    = some ([false, true, false, false], 1, some (1/2)) := by decide +kernel
+example : ((mkHilbert 2 true (fun i j => if i = j then 1 else 3/4)
+      (fun i j => if i < j then 1/2 else if j < i then -1/2 else 0) (fun _ _ => 1) false (1/2)).run
+      [HOp.thr (1/4), HOp.dir false (fun i j => if i = j then 1 else 3/4)
+        (fun i j => if i < j then 1/2 else if j < i then -1/2 else 0)]).map
+      (fun h => (h.net.directed, h.net.A, h.net.nLinks, h.net.density))
+    = some (false, [false, true, true, false], 1, some 1) := by decide +kernel
 
 end Pyunicorn.Similarity
